@@ -5,6 +5,11 @@ IDS = ["C%02d" % i for i in range(1, 21)]
 
 # id -> (engine, category, technique, text, note, design_ref)
 CHECKS = {
+ "C05": ("E1-enumeration+child-procs+CLI", "exploration",
+   "bounded-exhaustive enumeration of single and pairwise mutations of valid (basis, delta) pairs on both engines; child processes under RLIMIT_AS; real `copia patch`",
+   "Base cases: every (basis, source) over {0,1}^<=4 at block sizes 1 and 2 plus six chunk-level cases at B=512. Mutation menu: other basis, every truncation, extension, every bit flip, copy offset/len edits (+-1, +-B, basis_size, MAX), op drop/dup/swap/reverse, literal flip/truncate/extend, source_size/basis_size/block_size/checksum edits. All singles and all unordered pairs (quick: pairs on a sub-set). Oracle: Ok => BLAKE3(output) == delta.checksum; panic, abort or signal is a violation; huge declared lengths run in a child under RLIMIT_AS = 1 GiB so an allocation abort is observed. CLI: every single mutation of the chunk cases through `copia patch` under the same limit: exit 0 => output hashes to the delta's checksum, else exit 1 with a message, never a signal.",
+   "verify_checksum enabled (default); triples of mutations not covered; memory-exhaustion crash defined relative to a 1 GiB address-space limit.",
+   "DESIGN.md §3 C05"),
  "C19": ("E1-enumeration+CLI", "exploration",
    "bounded-exhaustive enumeration of the pure planner functions against set-comprehension / DP references; real find(1) and CLI --dry-run bindings",
    "glob_match on every (pattern, text) pair of length <= 4 (quick) / <= 5 (thorough, 87 M pairs) over {a,b,*,?,.,/} vs a DP wildcard matcher; is_excluded on every pattern of length <= 3 (with trailing-slash variants) x every 1..3-component path over 18 names containing *, ?, .; build_plan on all 4096 (src, dst) metadata maps over 3 paths x 43 exclude lists x delete on/off; needs_transfer on boundary values; parse_remote_meta_output on rendered listings (tabs, newlines, dots, UTF-8; sizes to u64::MAX; fractional/integral timestamps) and on the output of the real find -printf over files created on tmpfs; `copia sync -r --dry-run` prints exactly the reference plan for the metadata states (sub-sampled in quick, all 8192 in thorough).",
